@@ -27,14 +27,14 @@ Clauses == {
   "C01_PartsCarryReturnedChecksums", "C01_PartsTileSource", "C01_CompletedOnce",
   "C02_DestEqualsObject", "C02_NoWrongBytes",
   "C03_NoSuccessAfterFatalFault", "C03_RaisedIsOccurredFailureOrCancel",
-  "C03_AttemptsBounded", "C03_NonRetryableNotRetried", "C03_FailureDiscardsObject",
+  "C03_AttemptsBounded", "C03_NonRetryableNotRetried", "C03_FailureReported",
   "C04_NoDeadlock",
   "C05_ExactlyOneEnd", "C05_NeverCompletedTwice", "C05_NoPartOrCompleteAfterAbort",
   "C05_AbortAfterAllReturned",
   "C06_DestNeverPartial", "C06_NoTempWhenDone", "C06_FailureLeavesOld",
   "C06_CancelOldOrComplete", "C06_SuccessPublishesComplete",
   "C07_NoRequestIfNotStarted", "C07_CancelledOutcome", "C07_CancelErrorTruthful",
-  "C07_FinishedKeepsResult",
+  "C07_FinishedKeepsResult", "C07_CancelEntryPointReturns",
   "C08_QueuedAtMostOnce", "C08_QueuedOnceWhenStarted", "C08_QueuedBeforeAnyRequest",
   "C08_NoQueuedIfCancelledBeforeStart", "C08_DoneAtMostOnce", "C08_DoneExactlyOnceAtEnd",
   "C08_DoneAfterFinalAndQuiet", "C08_NoProgressAfterDoneBegan",
@@ -75,11 +75,9 @@ Holds(c, o) ==
     [] c = "C03_AttemptsBounded" ->
          AllX(o, LAMBDA xr : \A r \in DOMAIN xr.gets : xr.gets[r] <= o.cfg.attempts)
     [] c = "C03_NonRetryableNotRetried" -> AllX(o, LAMBDA xr : ~xr.getAfterFatal)
-    [] c = "C03_FailureDiscardsObject" ->
-         \* a failed single-request upload may have been applied by the
-         \* service (fault after effect); a failed multipart upload never
-         \* leaves a completed object unless Complete itself was applied
-         TRUE
+    [] c = "C03_FailureReported" ->
+         \* a transfer that met a fatal fault must report it: it may not hang
+         AllX(o, LAMBDA xr : (o.stuck # "" /\ xr.fatal /\ xr.call = "returned") => Finished(xr))
 
     [] c = "C04_NoDeadlock" -> o.stuck = ""
 
@@ -120,6 +118,7 @@ Holds(c, o) ==
                /\ Cancelled(xr)
                /\ xr.msgok
                /\ xr.cls = (IF xr.cancelHow = "exit-exc" THEN "FatalError" ELSE "CancelledError"))
+    [] c = "C07_CancelEntryPointReturns" -> ~o.cancelRaised
     [] c = "C07_FinishedKeepsResult" -> AllX(o, LAMBDA xr : xr.override \/ ~xr.resChanged)
 
     [] c = "C08_QueuedAtMostOnce" ->
